@@ -4,7 +4,7 @@ CONSTANTS N = 2
   Cycles = 2
   Drops = {0, 1}
   CharUsers = {0, 2}
-  Extras = {"none", "err1", "aerr1", "tick", "conn"}
+  Extras = {"none", "err1", "aerr1", "exec1", "tick", "conn"}
   Sim = FALSE
 INVARIANT Emit
 CHECK_DEADLOCK FALSE
